@@ -4,7 +4,7 @@ import z3
 from pyvc import vc, spec
 from pyvc.values import *   # noqa: F401,F403
 from pyvc.symcoll import WS
-from contracts import clib, container_transfer as CT, container_ops as CO, plate_ops as PO
+from contracts import clib, container_transfer as CT, container_ops as CO, plate_ops as PO, solutions as SOL
 
 FUNCTIONS = {
     'C01': ['Container._transfer', 'Container.transfer', 'Container._transfer_slice', 'PlateSlicer._transfer',
@@ -19,7 +19,7 @@ FUNCTIONS = {
     'C07': ['Slicer.apply', 'Slicer.set', 'Slicer.get', 'Container._transfer_slice', 'PlateSlicer._transfer',
             'PlateSlicer.remove', 'PlateSlicer.fill_to', 'Plate.transfer', 'Plate.remove', 'Plate.fill_to',
             'Container.transfer', 'Plate.__getitem__'],
-    'C11': ['Container.fill_to', 'Container._add', 'Container._self_add'],
+    'C11': ['Container.fill_to', 'Container._add', 'Container._self_add', 'Container.dilute'],
     'C04': ['Container.__init__', 'Container._self_add', 'Container._add', 'Container._transfer', 'Container.transfer',
             'Container._transfer_slice', 'Container.remove', 'Container.fill_to', 'Container.get_volume',
             'Container.get_concentration', 'PlateSlicer._transfer', 'PlateSlicer.remove', 'PlateSlicer.fill_to',
@@ -51,6 +51,8 @@ def tasks(tier, pid):
         t += [('plate_transfer',) + c for c in PO.transfer_cases(tier)]
     if pid in ('C07', 'C17', 'C04'):
         t += [('plate_unary',) + c for c in PO.unary_cases(tier)]
+    if pid in ('C11', 'C03', 'C04', 'C10'):
+        t += [('sol', 'dilute', c) for c in SOL.OPS['dilute'].cases(tier)]
     if pid == 'C03':
         t.append(('float_bounded', 60 if tier == 'quick' else 2000))
     if pid == 'C10':
@@ -81,6 +83,8 @@ def run(pid, kind, *args):
             if 'frame[arguments]' in r['name'] or r['kind'] in ('cover',) or r['verdict'] == 'unsupported':
                 out.append(dict(r, name=r['name'].replace('C16/', 'C04/')))
         return out
+    if kind == 'sol':
+        return SOL.run(args[0], pid, args[1])
     if kind == 'float_bounded':
         from contracts import c03_float
         return c03_float.run(*args)
